@@ -17,7 +17,8 @@ def run(ctx):
     ctx.regen(); ctx.prove()
     corr.reader(ctx, ctx.n(2500, 25000))
     rng = ctx.rng; cases = []
-    bodies = ['a', 'k: v', '[1, 2, 3]', '{a: b}', 'é☺ text', '"quoted"', '|\n  literal\n  block', 'x' * 100, 'y' * 5000, '- a\n- b\n- c', 'key:\n  - 1\n  - {b: c}', '"' + 'w ' * 3000 + '"', '"' + '😀' * 1023 + 'ab"', '"' + '😀' * 1500 + '"', '"x' + '€' * 1365 + '"', '"' + 'é' * 2047 + 'z"']
+    bodies = ['a', 'k: v', '[1, 2, 3]', '{a: b}', 'é☺ text', '"quoted"', '|\n  literal\n  block', 'x' * 100, 'y' * 5000, '- a\n- b\n- c', 'key:\n  - 1\n  - {b: c}', '"' + 'w ' * 3000 + '"', '"' + '😀' * 1023 + 'ab"', '"' + '😀' * 1500 + '"', '"x' + '€' * 1365 + '"', '"' + 'é' * 2047 + 'z"',
+              'z' * 20000, '"' + 'q' * 40000 + '"', '|\n  ' + 'L' * 30000, 'k: &anchor' + 'a' * 18000 + ' v', '- ' + 'p' * 17000 + '\n- x']       # single tokens longer than several refill blocks
     for i in range(ctx.n(250, 3000)):
         n = rng.choice([2, 3, 10, 60, 400])
         body = rng.choice(bodies) if rng.random() < 0.7 else None
